@@ -15,7 +15,7 @@ import (
 func init() { register("C18", runC18) }
 
 var c18Dirs = []string{"a", "b", "lib", "util", "mod"}
-var c18Stems = []string{"mod", "util", "core", "init", "x"}
+var c18Stems = []string{"mod", "util", "core", "init", "x", "ui", "re"}
 
 type c18Tree struct {
 	files []string // workspace-relative paths of module files (.lua, dotted .lua, .so)
